@@ -589,33 +589,18 @@ func (c *Ctx) delegatesTo(fn *ssa.Function, T *types.Named) bool {
 	return false
 }
 
-// loopCoversSlice: the loop containing b is a range-style loop: its header compares an index with len(x) (SSA: t < len) starting from -1/0 with step 1.
+// loopCoversSlice: the innermost loop containing b is a counted loop 0..len(x)-1 (a range over a slice).
 func (c *Ctx) loopCoversSlice(b *ssa.BasicBlock) bool {
-	// find a loop header block reachable from b that reaches b, with If(BinOp LSS idx, len)
-	for _, h := range b.Parent().Blocks {
-		if !(reachableBlock(h, b) && reachableBlock(b, h)) && h != b {
-			continue
-		}
-		if len(h.Instrs) == 0 {
-			continue
-		}
-		iff, ok := h.Instrs[len(h.Instrs)-1].(*ssa.If)
-		if !ok {
-			continue
-		}
-		cmp, ok := iff.Cond.(*ssa.BinOp)
-		if !ok || cmp.Op != token.LSS {
-			continue
-		}
-		// right side: len(slice)
-		if call, ok := cmp.Y.(*ssa.Call); ok {
-			if bi, ok := call.Call.Value.(*ssa.Builtin); ok && bi.Name() == "len" {
-				// left side: phi(-1, +1) + 1 or phi(0,+1)
-				return true
-			}
-		}
+	l := enclosingRangeLoop(b)
+	if l == nil {
+		return false
 	}
-	return false
+	call, ok := l.bound.(*ssa.Call)
+	if !ok {
+		return false
+	}
+	bi, ok := call.Call.Value.(*ssa.Builtin)
+	return ok && bi.Name() == "len"
 }
 
 // checkSoleConstructor: composite literals of pkg.T occur only in ctor.
